@@ -123,6 +123,9 @@ func runC04(a *args) error {
 			st.DistinctNontrivial++
 		}
 	}
+	if a.replay == "" {
+		c04MetadataAtLimit(r, st)
+	}
 	if len(cases) > 0 {
 		st.Samples = append(st.Samples, map[string]interface{}{"log": cases[0].Log, "cut": cases[0].Cut, "snapshot_bytes": cases[0].Snap})
 	}
@@ -138,4 +141,65 @@ func runC04(a *args) error {
 		return err
 	}
 	return writeJSON(a.out+"/stats.json", st)
+}
+
+// c04MetadataAtLimit: an item stored with as many metadata keys as the snapshot encoding holds (65535), then an update
+// that brings one more key (single and batch path).  Whatever the apply step decides - refuse, as it does, or accept -
+// every replica must decide the same and hold the same contents, the replica restored from a snapshot taken in between
+// included (a decision that depends on the iteration order of the stored metadata map differs between replicas).
+func c04MetadataAtLimit(r *rng, st *stats) {
+	big := make(map[string]string, 65535)
+	for k := 0; k < 65535; k++ {
+		big[fmt.Sprintf("k%05d", k)] = "v"
+	}
+	for _, kind := range []string{"update", "bupdate"} {
+		id := uuidFrom(r).String()
+		log := []stChange{
+			{Kind: "insert", Items: []stItem{{Id: id, Vec: genVec(r, 2), Meta: big}}},
+			{Kind: kind, Items: []stItem{{Id: id, Vec: genVec(r, 2), Meta: map[string]string{"one-more": "1"}}}},
+		}
+		type rep struct {
+			outs  string
+			final []stObsItem
+		}
+		var reps []rep
+		var snap []byte
+		for k := 0; k < 3; k++ {
+			p := newSoloPartition(r, 2, pb.Space_Euclidean)
+			o0 := p.apply(r, log[0])
+			if k == 0 {
+				snap, _ = p.ds.VerifSnapshot(0)
+			}
+			o1 := p.apply(r, log[1])
+			f, _, _ := p.contents()
+			reps = append(reps, rep{fmt.Sprint(o0, o1), f})
+			p.close()
+		}
+		if snap != nil {
+			p := newSoloPartition(r, 2, pb.Space_Euclidean)
+			if err := p.ds.VerifRestore(0, snap); err == nil {
+				o1 := p.apply(r, log[1])
+				f, _, _ := p.contents()
+				// the first outcome is not re-observed on the restored replica: compare the second and the contents
+				reps = append(reps, rep{reps[0].outs, f})
+				_ = o1
+			}
+			p.close()
+		}
+		st.count("metadata-at-limit:" + kind)
+		for k := 1; k < len(reps); k++ {
+			if reps[k].outs != reps[0].outs || !sameItems(reps[k].final, reps[0].final) {
+				nk := 0
+				if len(reps[k].final) > 0 {
+					nk = len(reps[k].final[0].Meta)
+				}
+				n0 := 0
+				if len(reps[0].final) > 0 {
+					n0 = len(reps[0].final[0].Meta)
+				}
+				st.ImplFailures = append(st.ImplFailures, implFailure{Case: -1, What: fmt.Sprintf("an item with 65535 metadata keys, then %s with one more key: replica %d and replica 0 disagree (outcomes %s vs %s; %d vs %d stored keys, contents equal: %v)", kind, k, reps[k].outs, reps[0].outs, nk, n0, sameItems(reps[k].final, reps[0].final)), Key: "replica-divergence:metadata-at-limit", Input: map[string]interface{}{"kind": kind, "stored_keys": 65535}})
+				break
+			}
+		}
+	}
 }
